@@ -41,12 +41,13 @@ uint64_t stream_key(int conn, int gen, int from_side)
 
 struct Elem
 {
-	enum K { Write, Close, Reconnect, Pause } k = Write;
+	enum K { Write, Close, Reconnect, Pause, Handoff } k = Write;
 	int64_t sizes[3] = {0, 0, 0};
 	int nbuf = 1;
 	bool nonblocking = false;
 	int64_t delay = 0;
 	int phase = 0;
+	int64_t need_rx = -1; // a response: only after this side has received that many bytes
 };
 
 struct ReadSpec
@@ -63,6 +64,8 @@ struct Side
 	Tcp* T = nullptr;
 	int conn = 0, side = 0; // side 0 = connector (node A), 1 = acceptor (node B)
 	std::unique_ptr<tcp::socket> sock;
+	std::unique_ptr<tcp::socket> spare; // moved-from object left behind by a handoff
+	bool handoff_requested = false;     // move the socket as soon as no read is outstanding
 	std::unique_ptr<asio::high_resolution_timer> timer;
 	int gen = 0;
 	int port = 0; // connector's port of the current connection
@@ -145,6 +148,7 @@ struct Tcp
 		{
 			Elem e = s.script.front();
 			if (e.k == Elem::Write && !s.connected) return; // waits for (re)connection
+			if (e.k == Elem::Write && e.need_rx >= 0 && s.received < e.need_rx && !s.eof && !s.reader_dead) return; // a response waits for the request
 			// between arming an accept and its handler the accept-into object may already
 			// carry the next connection: the acceptor side does nothing until the handler ran
 			if (s.side == 1 && accept_armed[s.conn] && e.k != Elem::Pause) return;
@@ -170,11 +174,41 @@ struct Tcp
 					if (s.side == 0)
 					{
 						if (s.sock->is_open()) do_close(s);
+						if (s.spare)
+						{
+							// the next connection is made with the moved-from object of an earlier handoff
+							std::swap(s.sock, s.spare);
+							s.spare.reset();
+							ctx.hit("reconnect_on_moved_from_object");
+						}
 						do_connect(s, e.delay);
 					}
 					break;
+				case Elem::Handoff: do_handoff(s); break;
 			}
 		}
+	}
+
+	// the connection is moved into a fresh socket object (as a server does when it hands an accepted socket to a session
+	// object); the moved-from object is kept and reused for the next connection
+	void do_handoff(Side& s)
+	{
+		// no operation may be outstanding on a socket that is moved: with a read pending the handoff waits for the
+		// moment that read has completed (see on_read), otherwise it happens now
+		if (s.read_pending) { s.handoff_requested = true; return; }
+		handoff_now(s);
+	}
+
+	void handoff_now(Side& s)
+	{
+		s.handoff_requested = false;
+		if (!s.connected || !s.sock->is_open() || s.write_outstanding || s.read_pending) return;
+		if (s.side == 1 && accept_armed[s.conn]) return;
+		std::unique_ptr<tcp::socket> n(new tcp::socket(std::move(*s.sock)));
+		s.spare = std::move(s.sock);
+		s.sock = std::move(n);
+		ctx.tr.rec("handoff", {s.conn, s.side}, {now_ns()});
+		ctx.hit("handoff");
 	}
 
 	void do_write(Side& s, Elem const& e)
@@ -401,7 +435,9 @@ struct Tcp
 		steps_at_progress = steps;
 		if (s.received > p.given_max)
 			fail("tcp.stream.beyond", "delivered " + std::to_string(s.received) + " bytes but only " + std::to_string(p.given_max) + " were handed to writes");
+		if (s.handoff_requested) handoff_now(s);
 		start_read(s);
+		pump(s); // a response may be waiting for this
 	}
 
 	void maybe_finish(Side& s)
@@ -429,6 +465,7 @@ struct Tcp
 		s.rpos = 0;
 		s.writer_busy = false;
 		s.write_outstanding = false;
+		s.handoff_requested = false;
 		++s.handler_epoch;
 		s.timer->cancel();
 		// writes left over from the previous connection are not carried over
@@ -544,10 +581,11 @@ struct Tcp
 			int const c = int(uint64_t(o.a) % uint64_t(nconn));
 			int const sd = int(uint64_t(o.b) & 1);
 			Side& s = sides[c][sd];
-			if (o.op == "w")
+			if (o.op == "w" || o.op == "wr")
 			{
 				Elem e;
 				e.k = Elem::Write;
+				if (o.op == "wr") e.need_rx = sides[c][1 - sd].offered;
 				decode_sizes(o.c, o.d >> 1, k_wsizes, k_nw, e.sizes, e.nbuf);
 				e.nonblocking = (o.d & 1) != 0;
 				e.phase = phase;
@@ -562,6 +600,7 @@ struct Tcp
 				s.rscript.push_back(r);
 			}
 			else if (o.op == "close") { Elem e; e.k = Elem::Close; e.phase = phase; s.script.push_back(e); }
+			else if (o.op == "handoff") { Elem e; e.k = Elem::Handoff; e.phase = phase; s.script.push_back(e); }
 			else if (o.op == "pause") { Elem e; e.k = Elem::Pause; e.delay = std::max<int64_t>(1, o.c); e.phase = phase; s.script.push_back(e); }
 			else if (o.op == "reconnect")
 			{
@@ -859,7 +898,7 @@ struct Tcp
 		// teardown: objects before their contexts, contexts before the simulation
 		for (int c = 0; c < nconn; ++c)
 		{
-			for (int sd = 0; sd < 2; ++sd) { sides[c][sd].timer.reset(); sides[c][sd].sock.reset(); }
+			for (int sd = 0; sd < 2; ++sd) { sides[c][sd].timer.reset(); sides[c][sd].sock.reset(); sides[c][sd].spare.reset(); }
 			acceptors[c].reset();
 		}
 		nodeA.reset(); nodeB.reset();
@@ -1027,6 +1066,11 @@ struct TcpEngine : Engine
 		int64_t total = 0;
 		int phase_dir = int(rng.below(2));
 		bool const one_dir_phases = c06 && finite;
+		// request/response: each side answers as soon as it has received everything the peer wrote (payload still flows
+		// one direction at a time, but the answer starts while the ACKs of the request are still in the queues)
+		bool const ping_pong = c06 && finite && rng.chance(0.4);
+		int pp_side = int(rng.below(2));
+		bool pp_first = true;
 		for (int i = 0; i < nops; ++i)
 		{
 			Op o;
@@ -1034,6 +1078,20 @@ struct TcpEngine : Engine
 			int const c = int(rng.below(uint64_t(nconn)));
 			int sd = int(rng.below(2));
 			if (one_dir_phases) sd = phase_dir;
+			if (ping_pong)
+			{
+				if (u < 0.7)
+				{
+					o.op = pp_first ? "w" : "wr"; o.a = 0; o.b = pp_side;
+					o.c = rng.chance(0.5) ? int64_t(rng.below(uint64_t(k_nw))) : 1000 + rng.logu(1, 20000);
+					o.d = int64_t(rng.below(6));
+					pp_first = false;
+					if (rng.chance(0.6)) pp_side = 1 - pp_side;
+				}
+				else { o.op = "r"; o.a = 0; o.b = int64_t(rng.below(2)); o.c = int64_t(rng.below(uint64_t(k_nr))); o.d = (int64_t(rng.below(3)) << 1) | (rng.chance(0.3) ? 1 : 0); }
+				p.ops.push_back(o);
+				continue;
+			}
 			if (u < 0.55)
 			{
 				o.op = "w"; o.a = c; o.b = sd;
@@ -1060,6 +1118,7 @@ struct TcpEngine : Engine
 				if (c19 && rng.chance(0.35)) o.c = rng.logu(600000000000LL, 11000000000000LL);
 			}
 			else if (u < 0.92) { o.op = "phase"; if (one_dir_phases) phase_dir = int(rng.below(2)); }
+			else if (!c06 && u < 0.945) { o.op = "handoff"; o.a = c; o.b = sd; }
 			else if (!c06 && u < 0.97) { o.op = "close"; o.a = c; o.b = sd; }
 			else if (!c06) { o.op = "reconnect"; o.a = c; o.c = rng.chance(0.5) ? 0 : rng.logu(1000, 1000000000); }
 			else continue;
@@ -1069,6 +1128,7 @@ struct TcpEngine : Engine
 		{
 			// reuse scenario: close one end, reconnect, write again
 			int const c = int(rng.below(uint64_t(nconn)));
+			if (rng.chance(0.4)) { Op h; h.op = "handoff"; h.a = c; h.b = 0; p.ops.push_back(h); }
 			Op cl; cl.op = "close"; cl.a = c; cl.b = int64_t(rng.below(2)); p.ops.push_back(cl);
 			if (rng.chance(0.5)) { Op cl2 = cl; cl2.b = 1 - cl.b; p.ops.push_back(cl2); }
 			Op rc; rc.op = "reconnect"; rc.a = c; rc.c = rng.chance(0.5) ? 0 : rng.logu(1000, 3000000000LL); p.ops.push_back(rc);
